@@ -81,13 +81,14 @@ func TestVerif_C03(t *testing.T) {
 	r := vh.Start(t, "C03", "changehash")
 	defer r.Finish()
 	depth := r.Pick(5, 6)
-	r.Rule("every operation sequence of length<=D over 4 prefix-sharing keys x {put v1, put v2, delete} (incl. delete-of-absent, overwrite-same, delete-then-recreate), on an overlay over an empty and over a pre-populated store; states = distinct final key->value maps, transitions = operations applied to the real OverlayDB, traces = complete sequences; each path's ChangeHash and write-set listing compared with the value computed from the final map alone; plus macro operations crossing the table's capacity thresholds; plus (wide phase) every sequence over a key pool spanning the key comparison's domain (7/8/9/16-byte keys with leading bytes 00 05 65 7f 80 c5 ff, prefix-related, equal in the first 8 bytes, word extremes/midpoints) x {put, delete}, same oracle and write-set lookups of every touched key")
-	r.Bound(fmt.Sprintf("depth<=%d, 12 symbols (4 keys x {v1, the stored value, delete}), over an empty and a pre-populated store; macro phase depth<=%d over 10 macro operations; wide phase: 36-key pool, depth<=3 x %d value symbols, depth<=4 puts only over %d of its keys, 7-key reduced pool depth<=%d x {put, delete}", depth, r.Pick(4, 5), r.Pick(2, 3), r.Pick(22, 36), r.Pick(4, 5)))
+	r.Rule("every operation sequence of length<=D over 4 prefix-sharing keys x {put v1, put v2, delete} (incl. delete-of-absent, overwrite-same, delete-then-recreate), on an overlay over an empty and over a pre-populated store; states = distinct final key->value maps, transitions = operations applied to the real OverlayDB, traces = complete sequences; each path's ChangeHash and write-set listing compared with the value computed from the final map alone; plus macro operations crossing the table's capacity thresholds; plus (wide phase) every sequence over a key pool spanning the key comparison's domain (7/8/9/16-byte keys with leading bytes 00 05 65 7f 80 c5 ff, prefix-related, equal in the first 8 bytes, word extremes/midpoints) x {put, delete}, same oracle and write-set lookups of every touched key; plus (checkpoint phase) every sequence of length<=Dc over the 12 symbols with every subset of positions at which ChangeHash and the write set are observed on the same overlay, each observation compared with the content at that point")
+	r.Bound(fmt.Sprintf("depth<=%d, 12 symbols (4 keys x {v1, the stored value, delete}), over an empty and a pre-populated store; macro phase depth<=%d over 10 macro operations; wide phase: 36-key pool, depth<=3 x %d value symbols, depth<=4 puts only over %d of its keys, 7-key reduced pool depth<=%d x {put, delete}; checkpoint phase depth<=%d x all 2^(d-1) observation-position subsets", depth, r.Pick(4, 5), r.Pick(2, 3), r.Pick(22, 36), r.Pick(4, 5), r.Pick(4, 5)))
 
 	var rc struct {
 		Ops     []string `json:"ops"`
 		Prefill bool     `json:"prefill"`
 		Wide    []string `json:"wide_ops"`
+		Cps     []int    `json:"checkpoints_after"`
 	}
 	nsym := len(c03keys) * len(c03vals)
 	states := map[string]string{} // final map -> first hash seen
@@ -119,6 +120,10 @@ func TestVerif_C03(t *testing.T) {
 	}
 	if r.ReplayCase(&rc) && rc.Wide != nil {
 		c03wideReplay(r, rc.Wide)
+		return
+	}
+	if rc.Ops != nil && rc.Cps != nil {
+		c03checkpointReplay(r, rc.Ops, rc.Cps, rc.Prefill)
 		return
 	}
 	if rc.Ops != nil {
@@ -170,6 +175,7 @@ func TestVerif_C03(t *testing.T) {
 	}
 	c03macro(r)
 	c03wide(r)
+	c03checkpoint(r)
 	r.Eval(r.R.Traces)
 	r.Sample(map[string]interface{}{"ops": []string{"put(a,v1)", "del(a)", "put(ab,s)", "put(a,s)"}, "final": "a=s,ab=s"})
 	r.Need(len(states) >= 100 || r.R.NShards > 1, "only %d final maps reached", len(states))
